@@ -315,4 +315,11 @@ def compile (br : Nat → Bool) (e : Expr) : Except CompileErr Prog :=
   | .error err => .error err
   | .ok (code, nsv) => .ok ⟨code ++ [.end_], nsv⟩
 
+/-! stage predicate of the engine refinement: the program has no `Delegate` instruction -/
+def Insn.isDelegate : Insn → Bool
+  | .delegate _ _ _ => true
+  | _ => false
+
+def noDeleg (code : List Insn) : Bool := code.all fun i => !i.isDelegate
+
 end Fancy
